@@ -161,6 +161,9 @@ package cmd
 
 // ---- helper functions
 
+// a WalkFunc only looks at the commit it is given (the one closure passed in log.go prints it)
+//@ functype WalkFunc pure
+
 //@ func add
 //@   returns err
 //@   modifies store.Index.Entries, store.Index.Header, fs
@@ -194,7 +197,7 @@ package cmd
 //@ func resetWorkingTree
 //@   returns err
 //@   modifies fs, $rdpos, $hashdata
-//@   requires index != nil && (forall i int :: 0 <= i && i < len(index.Entries) ==> index.Entries[i] != nil && len(index.Entries[i].Hash) >= 1)
+//@   requires index != nil && store.wfIndex(index)
 
 //@ func restoreIndex
 //@   returns err
@@ -230,5 +233,7 @@ package cmd
 
 //@ func walkHistory
 //@   returns err
-//@   modifies *
+//@   modifies $rdpos, $hashdata, $screst, $sctok, $out, maps
 //@   requires len(hash) >= 1
+//@   loop 0:
+//@     invariant forall i int :: 0 <= i && i < len(queue) ==> len(queue[i]) >= 1
